@@ -71,7 +71,7 @@ Lemma body_block_good p_body p_single labels :
   (forall l d, spec cLabels f (labels l d)) ->
   forall ident, spec cBlock (S f) (finish_parsing_body_block_body f p_body p_single labels ident).
 Proof.
-  unfold spec. intros Hb Hs Hnil Hl ident. start. unfold finish_parsing_body_block_body. run.
+  unfold spec. intros Hb Hs Hnil Hl ident. start. unfold finish_parsing_body_block_body, parse_block_content. run.
   all: exfalso;
     match goal with E : _ = Ok (None, _) _ |- _ => apply Hnil in E; apply E end;
     match goal with H : derrs _ = false |- _ => apply derrs_false in H end;
@@ -220,9 +220,38 @@ Proof.
   intros H s a s' Hwf E. specialize (H s Hwf). rewrite E in H. apply H.
 Qed.
 
+(* the same for the functions that are only called with a particular token next (their Go
+   counterparts panic otherwise): the precondition says what Peek shows *)
+Definition balanced_pre {A} (pre : pstate -> Prop) (m : M A) : Prop :=
+  forall s a s', nlstack s <> [] -> pre s -> m s = Ok a s' -> nlstack s' = nlstack s.
+
+Lemma spec_pre_balanced {A} pre c fuel (m : M A) : spec_pre pre c fuel m -> balanced_pre pre m.
+Proof. intros H s a s' Hwf Hp E. specialize (H s Hwf Hp). rewrite E in H. apply H. Qed.
+Lemma spec_strict_pre_balanced {A} pre c fuel (m : M A) : spec_strict_pre pre c fuel m -> balanced_pre pre m.
+Proof. intros H s a s' Hwf Hp E. specialize (H s Hwf Hp). rewrite E in H. apply H. Qed.
+
+Theorem newline_stack_balanced_pre : forall fuel,
+  balanced_pre (peeks is_ident) (parse_body_item fuel) /\
+  (forall i sl, balanced_pre (peeks is_equal) (finish_parsing_body_attribute fuel i sl)) /\
+  (forall name, balanced_pre (peeks is_call_open) (finish_parsing_function_call fuel name)) /\
+  balanced_pre (peeks is_obrack) (parse_tuple_cons fuel) /\
+  balanced_pre (peeks is_obrace) (parse_object_cons fuel) /\
+  (forall o, balanced_pre (for_pre o) (finish_parsing_for_expr fuel o)).
+Proof.
+  intro fuel.
+  destruct (expr_knot fuel) as (_ & _ & _ & _ & HC & _ & _ & HTC & _ & HOC & _ & HF).
+  destruct (body_knot fuel) as (_ & HI & _).
+  repeat split.
+  - exact (spec_strict_pre_balanced _ _ _ _ HI).
+  - intros i sl. exact (spec_pre_balanced _ _ _ _ (body_attribute_spec fuel i sl)).
+  - intro name. exact (spec_pre_balanced _ _ _ _ (HC name)).
+  - exact (spec_pre_balanced _ _ _ _ HTC).
+  - exact (spec_pre_balanced _ _ _ _ HOC).
+  - intro o. exact (spec_pre_balanced _ _ _ _ (HF o)).
+Qed.
+
 Theorem newline_stack_balanced : forall fuel,
   (forall e, balanced (parse_body fuel e)) /\
-  (forall i sl, balanced (fun s => finish_parsing_body_attribute fuel i sl s) \/ True) /\
   (forall i, balanced (finish_parsing_body_block fuel i)) /\
   (forall e, balanced (parse_single_attr_body fuel e)) /\
   balanced (parse_expression fuel) /\
@@ -242,7 +271,6 @@ Proof.
   destruct (body_knot fuel) as (HB & _ & HK).
   repeat split.
   - intro e. exact (spec_balanced _ _ _ (parse_body_spec fuel e)).
-  - intros; right; exact I.
   - intro i. exact (spec_balanced _ _ _ (HK i)).
   - intro e. exact (spec_balanced _ _ _ (single_attr_body_spec fuel e)).
   - exact (spec_balanced _ _ _ HE).
